@@ -25,6 +25,7 @@ type C17 struct {
 	Orchs  []sdk.AccAddress
 	Keys   []*ecdsa.PrivateKey
 	Chains []string
+	Leave  bool // validator A may leave for good (x/staking deletes its record) and be created again
 }
 
 func NewC17(tier string) *C17 {
@@ -107,6 +108,13 @@ func (c *C17) Ops(s *HState) []engine.Op {
 			engine.OpN("Delegate", ch, 1, 1, 1, 1, 1),
 		)
 	}
+	if c.Leave {
+		if !s.Snap.Staking[0].Removed {
+			ops = append(ops, engine.OpN("Leave"))
+		} else {
+			ops = append(ops, engine.OpN("Return"))
+		}
+	}
 	return ops
 }
 
@@ -143,6 +151,16 @@ func sameIndex(a, b map[string]string) bool {
 
 func (c *C17) Do(in *hub.Instance, gg Ghost, op engine.Op, st *engine.Step) {
 	g := gg.(*c17Ghost)
+	if op.Kind == "Leave" || op.Kind == "Return" {
+		if op.Kind == "Leave" {
+			in.ValLeave(0)
+		} else {
+			in.ValReturn(0, 10)
+		}
+		st.Obs = op.Kind
+		c.invariants(in, g, st)
+		return
+	}
 	ch := op.S[0]
 	v, o, e, sk, sm := op.I[0], op.I[1], op.I[2], op.I[3], op.I[4]
 	val := c.Vals[v]
@@ -273,6 +291,9 @@ func init() {
 		edge.Chains = []string{"ethereum"}
 		edge.Vals = []hub.Validator{edgeValidator("A", 0xff, 0xfe), edgeValidator("B", 0x00, 0x01), hub.NewValidator("C")}
 		edge.Orchs[2] = edge.Vals[1].Acc
+		lv := NewC17(tier)
+		lv.Chains = []string{"ethereum"}
+		lv.Leave = true
 		edge2 := NewC17(tier)
 		edge2.Chains = []string{"ethereum"}
 		edge2.Vals = []hub.Validator{edgeValidator("A", 0x00, 0x00), edgeValidator("B", 0xff, 0xff), hub.NewValidator("C")}
@@ -280,7 +301,8 @@ func init() {
 		return []MultiCase{{Name: "chains ethereum, bsc", Spec: two, Cfg: engine.Config{MaxDepth: d2, Deadline: dl, ReplayLeaf: 30}},
 				{Name: "one chain, longer sequences", Spec: one, Cfg: engine.Config{MaxDepth: d1, Deadline: dl, ReplayLeaf: 30}},
 				{Name: "operator addresses 0xff..fe and 0x00..01", Spec: edge, Cfg: engine.Config{MaxDepth: d2, Deadline: dl, ReplayLeaf: 30}},
-				{Name: "operator addresses 0x00..00 and 0xff..ff", Spec: edge2, Cfg: engine.Config{MaxDepth: d2, Deadline: dl, ReplayLeaf: 30}}}, []string{
+				{Name: "operator addresses 0x00..00 and 0xff..ff", Spec: edge2, Cfg: engine.Config{MaxDepth: d2, Deadline: dl, ReplayLeaf: 30}},
+				{Name: "validator A leaves for good and is created again", Spec: lv, Cfg: engine.Config{MaxDepth: d2, Deadline: dl, ReplayLeaf: 30}}}, []string{
 				"validators A, B (bonded), C (unknown to staking); orchestrator accounts o1, o2 and B's own account; external keys e1, e2; chains ethereum, bsc; signer sequences are bumped like the ante handler does (persisting on failure)",
 				"that the transaction is signed by the account MsgDelegateKeys.GetSigners names is enforced by the SDK ante handler; the check verifies GetSigners names exactly the validator's own account",
 				"only-if direction: a successful registration must carry a valid signature of the external key over (validator, sequence) and keep the registry one-to-one; rejecting a valid one is not a violation",
